@@ -57,6 +57,68 @@ func ruleC16ExecFile(p *Prog, a *Anchors, r *Report) {
 	if n == 0 {
 		r.Unk("constructor", "-", "no ExecutionContext method builds an Error from a token (anchor unresolved)")
 	}
+	// … and the token is handed to that constructor, not attached afterwards: an error built without a token names the
+	// EXECUTING template; completing it later with the token of a node defined elsewhere (an imported macro) gives
+	// `in main.tpl | Line 6 Col 12` for a position of lib.tpl
+	upd := p.Method("Error", "updateFromTokenIfNeeded")
+	for _, f := range p.inPkgFuncsSorted(p.allFuncSet()) {
+		for _, b := range f.Blocks {
+			for _, in := range b.Instrs {
+				c, ok := in.(*ssa.Call)
+				if !ok || upd == nil || c.Common().StaticCallee() != upd {
+					continue
+				}
+				src, ok := c.Common().Args[0].(*ssa.Call)
+				if !ok || src.Common().StaticCallee() == nil {
+					continue
+				}
+				mk := src.Common().StaticCallee()
+				if recv := mk.Signature.Recv(); recv == nil || structOf(recv.Type()) == nil || structOf(recv.Type()).Obj().Name() != "ExecutionContext" {
+					continue
+				}
+				tokArg := ssa.Value(nil)
+				for i, pa := range mk.Params {
+					if pt, isP := pa.Type().(*types.Pointer); isP && types.Identical(pt.Elem(), a.Token) && i < len(src.Common().Args) {
+						tokArg = src.Common().Args[i]
+					}
+				}
+				key := p.FuncName(f) + ":late-token"
+				if tokArg != nil && isNilConst(tokArg) {
+					r.Bad(key, p.InstrPos(in), "an execution error is built without a token (Filename = the executing template) and given the position of %s afterwards: for a node defined in another template (imported macro, block of a parent) file name and line/column belong to different sources", p.VN(c.Common().Args[len(c.Common().Args)-1]))
+				} else {
+					r.OK(key, p.InstrPos(in), "the error being completed was built with its own token")
+				}
+			}
+		}
+	}
+	// compile side: Parser.Error without a token falls back to the parser's remembered last token (for an argument
+	// parser without tokens that is the tag's name), so that the error of `{% now %}` carries a position in ITS template
+	// and is not given one of an including template later
+	if pe := p.Method("Parser", "Error"); pe != nil {
+		tokParam := paramOfType(pe, types.NewPointer(a.Token))
+		found := false
+		for _, b := range pe.Blocks {
+			for _, in := range b.Instrs {
+				if u, ok := in.(*ssa.UnOp); ok && u.Op == token.MUL {
+					if fa, isFA := u.X.(*ssa.FieldAddr); isFA {
+						if n := structOf(fa.X.Type()); n != nil && n.Obj().Name() == "Parser" {
+							if pt, isP := u.Type().(*types.Pointer); isP && types.Identical(pt.Elem(), a.Token) {
+								found = true
+							}
+						}
+					}
+				}
+			}
+		}
+		switch {
+		case tokParam == nil:
+			r.Unk("(*Parser).Error:fallback", p.Pos(pe.Pos()), "Parser.Error has no token parameter")
+		case found:
+			r.OK("(*Parser).Error:fallback", p.Pos(pe.Pos()), "without a token the error falls back (also) to the token the parser remembers")
+		default:
+			r.Bad("(*Parser).Error:fallback", p.Pos(pe.Pos()), "Parser.Error(msg, nil) of a parser without tokens yields an error without position although the parser remembers the tag's name token: {% now %} in an included template is reported at a line/column of the including template")
+		}
+	}
 }
 
 // errorAllocs lists the allocations of Error objects in f.
@@ -275,6 +337,64 @@ func ruleC16Pair(p *Prog, a *Anchors, r *Report) {
 					r.OK(key, p.InstrPos(g.line), "Line/Column (and Token) come from the same token %v", lt)
 				} else {
 					r.Bad(key, p.InstrPos(g.tok), "Error.Token is %s but Line/Column come from %v", p.VN(g.tok.Val), lt)
+				}
+			}
+			// Token and position are set on the same paths: a Token stored where Line/Column are not (because the
+			// error already has a position) pairs the token of one place with the position of another
+			if g.tok != nil && g.tok.Block() != g.line.Block() {
+				post := true
+				for _, ret := range returnsOf(f) {
+					if !ReachableBlocks(g.tok.Block())[ret.Block()] {
+						continue
+					}
+					if !MustPassFrom(g.tok.Block(), indexIn(g.tok), ret, func(x ssa.Instruction) bool { return x == ssa.Instruction(g.line) }) {
+						post = false
+					}
+				}
+				if post {
+					r.OK(p.FuncName(f)+":token-with-position", p.InstrPos(g.tok), "wherever Token is stored, Line/Column are stored too")
+				} else {
+					r.Bad(p.FuncName(f)+":token-with-position", p.InstrPos(g.tok), "Error.Token is stored on a path on which Line/Column are not (the error already has a position): the message then reads `Line 2 Col 7 near '<text of a token somewhere else>'`")
+				}
+			}
+			// completing an existing error (not one built here): the position of token T may only be given to an
+			// error that names T's source — its Filename is T.Filename afterwards, on every path
+			if _, fresh := stripLoad(g.line.Addr.(*ssa.FieldAddr).X).(*ssa.Alloc); !fresh && len(lt) > 0 {
+				fkey := p.FuncName(f) + ":position:filename"
+				okFile := false
+				if g.file != nil {
+					ft, _ := tokenOfFieldLoad(p, g.file.Val, "Filename", 0)
+					if len(ft) > 0 && overlap(ft, lt) {
+						// unconditional on the paths that set the position?
+						if g.file.Block() == g.line.Block() {
+							okFile = true
+						} else {
+							okFile = true
+							for _, ret := range returnsOf(f) {
+								if ReachableBlocks(g.line.Block())[ret.Block()] && !MustPassFrom(g.line.Block(), indexIn(g.line), ret, func(x ssa.Instruction) bool { return x == ssa.Instruction(g.file) }) {
+									okFile = false
+								}
+							}
+						}
+					}
+				}
+				if !okFile {
+					// or: the position is only given when the error names no source / the same source
+					okFile = Guarded(g.line, func(c ssa.Value, pol bool) bool {
+						bo, ok := c.(*ssa.BinOp)
+						if !ok || bo.Op != token.EQL || !pol {
+							return false
+						}
+						fx, fy := loadsField(bo.X, "Error", "Filename"), loadsField(bo.Y, "Error", "Filename")
+						tx, _ := tokenOfFieldLoad(p, bo.X, "Filename", 0)
+						ty, _ := tokenOfFieldLoad(p, bo.Y, "Filename", 0)
+						return (fx && len(ty) > 0) || (fy && len(tx) > 0)
+					})
+				}
+				if okFile {
+					r.OK(fkey, p.InstrPos(g.line), "the completed error names the source of the token that provides its position")
+				} else {
+					r.Bad(fkey, p.InstrPos(g.line), "an existing error is given the Line/Column of token %v although its Filename may name another source (it is only filled in when empty): the error of a template that could not be found, or of an included template, then points to a line/column of the INCLUDING template under the included one's name", lt)
 				}
 			}
 			// execution errors: Filename from the same token
@@ -554,4 +674,24 @@ func itoa(k int64) string {
 		s = "-" + s
 	}
 	return s
+}
+
+// indexIn: position of an instruction in its block, plus one (the point right after it).
+func indexIn(in ssa.Instruction) int {
+	for i, x := range in.Block().Instrs {
+		if x == in {
+			return i + 1
+		}
+	}
+	return 0
+}
+
+// stripLoad: the value behind a load of a local cell.
+func stripLoad(v ssa.Value) ssa.Value {
+	if u, ok := v.(*ssa.UnOp); ok {
+		if sv := localLoadValue(u); sv != nil {
+			return sv
+		}
+	}
+	return v
 }
